@@ -9,6 +9,7 @@ import (
 	"net/http"
 	"net/http/httptest"
 	"os"
+	"path/filepath"
 	"sort"
 	"strings"
 	"sync"
@@ -237,7 +238,8 @@ func c15(tier string, args []string) int {
 						continue
 					}
 					// accepted: what was posted must be exactly the submission's messages
-					if in.Kind == "submit" && sub.Event != types.OperationProcessed {
+					// (a finished reinitialisation is the one result that posts nothing)
+					if in.Kind == "submit" && !(sub.Event == types.OperationProcessed && string(stored.Type) == string(types.ReinitDKG)) {
 						if len(appended) != len(sub.ResultMsgs) {
 							r.Violation("C15/posted-count-differs/"+in.Variant, fmt.Sprintf("%s: the result carries %d messages, %d were posted", in.Label, len(sub.ResultMsgs), len(appended)), trace())
 						}
@@ -304,6 +306,7 @@ func c15(tier string, args []string) int {
 		l.Node.Stop()
 	}
 	roundTrips := c15RoundTrip(r, rec, results)
+	roundTrips += c15ResultFiles(r, rec)
 	r.Set("states", totS)
 	r.Set("transitions", totT)
 	r.Set("traces_validated_against_impl", totT)
@@ -367,6 +370,13 @@ func submissionVariants(res *types.Operation) []in15 {
 	add("payload-appended", func(o *types.Operation) { o.Payload = append(append([]byte(nil), o.Payload...), ' ') })
 	add("request-only", func(o *types.Operation) { o.Event = ""; o.ResultMsgs = nil })
 	add("event-changed", func(o *types.Operation) { o.Event = "event_something_else" })
+	// the event that only a finished reinitialisation carries (nothing is posted for it)
+	add("event-set-to-processed", func(o *types.Operation) { o.Event = types.OperationProcessed })
+	add("round-id-changed", func(o *types.Operation) { o.DKGIdentifier = strings.Repeat("e", 64) })
+	add("round-id-changed-and-processed", func(o *types.Operation) {
+		o.DKGIdentifier = strings.Repeat("e", 64)
+		o.Event = types.OperationProcessed
+	})
 	add("created-at-changed", func(o *types.Operation) { o.CreatedAt = o.CreatedAt.Add(1) })
 	add("to-changed", func(o *types.Operation) { o.To = "someone" })
 	add("extra-data-changed", func(o *types.Operation) { o.ExtraData = append([]byte("x"), o.ExtraData...) })
@@ -496,3 +506,54 @@ func c15RoundTrip(r *kit.Run, rec *world.Recording, results map[string]*types.Op
 }
 
 var _ kit.Finding
+
+// c15ResultFiles: the result FILE the machine writes is what travels back. Every operation of the
+// ceremony is processed on a machine and then fed to it a second time (the operator scans it
+// again; for the key-generation steps the second answer is a short error report): after every
+// processing the file must hold exactly one JSON operation, the one just produced.
+func c15ResultFiles(r *kit.Run, rec *world.Recording) int {
+	n := 0
+	for i := range rec.W.Airs {
+		ops := machineOps(r, rec, i)
+		a, err := freshMachineAt(rec, i, ops, 0)
+		if err != nil {
+			r.Infra("machine %d: %v", i, err)
+		}
+		feed := func(o types.Operation, label string) {
+			path, perr := func() (p string, e error) {
+				defer func() {
+					if x := recover(); x != nil {
+						e = fmt.Errorf("panic: %v", x)
+					}
+				}()
+				return a.M.ProcessOperation(o, true)
+			}()
+			if perr != nil {
+				return
+			}
+			n++
+			bz, rerr := os.ReadFile(path)
+			if rerr != nil {
+				r.Violation("C15/result-file-unreadable", fmt.Sprintf("machine %d, %s of %s: %v", i, label, o.Type, rerr), map[string]interface{}{"machine": i, "operation": o.ID, "history": label})
+				return
+			}
+			var back types.Operation
+			if jerr := json.Unmarshal(bz, &back); jerr != nil {
+				r.Violation("C15/result-file-does-not-parse/"+label, fmt.Sprintf("machine %d, %s of the %s operation: the result file (%d bytes) is not one JSON operation: %v", i, label, o.Type, len(bz), jerr), map[string]interface{}{"machine": i, "operation": o.ID, "history": label, "file": filepath.Base(path)})
+				return
+			}
+			if back.ID != o.ID || string(back.Type) != string(o.Type) || !bytes.Equal(back.Payload, o.Payload) {
+				r.Violation("C15/result-file-is-another-operation/"+label, fmt.Sprintf("machine %d, %s of %s: the file holds operation %s", i, label, o.Type, back.ID), map[string]interface{}{"machine": i, "operation": o.ID})
+			}
+		}
+		for _, o := range ops {
+			feed(o, "first-processing")
+		}
+		for _, o := range ops {
+			feed(o, "second-processing")
+		}
+		a.Close()
+		os.RemoveAll(a.Dir)
+	}
+	return n
+}
